@@ -209,7 +209,7 @@ package keeper
 //@   flag pure=IsOperatorFrozen,IsOperatorRemovingKeyFromChainID,ToTmProtoKey,ToConsAddr,GetOperatorAddressForChainIDAndConsAddr,getOperatorConsKeyForChainID,EqualsWrapped,getOperatorPrevConsKeyForChainID
 //@   flag havoc=setOperatorPrevConsKeyForChainID,setOperatorConsKeyForChainIDUnchecked,AfterOperatorKeyReplaced,AfterOperatorKeySet,Hooks
 //@   modifies state(ctx)
-//@   before[C07.sock.unused]    setOperatorConsKeyForChainIDUnchecked requires !res_GetOperatorAddressForChainIDAndConsAddr_0 && !res_IsOperatorRemovingKeyFromChainID_0
+//@   before[C06.sock.unique,C07.sock.unused] setOperatorConsKeyForChainIDUnchecked requires !res_GetOperatorAddressForChainIDAndConsAddr_0 && !res_IsOperatorRemovingKeyFromChainID_0
 //@   before[C07.sock.consaddr]  setOperatorConsKeyForChainIDUnchecked requires arg_consAddr == res_ToConsAddr_0 && arg_opAccAddr == opAccAddr && arg_chainID == chainID
 //@   before[C07.sock.prevonce]  setOperatorPrevConsKeyForChainID requires res_getOperatorConsKeyForChainID_0 && !res_getOperatorPrevConsKeyForChainID_0 && arg_opAccAddr == opAccAddr && arg_chainID == chainID
 //@   before[C07.sock.hook]      AfterOperatorKeyReplaced requires res_getOperatorConsKeyForChainID_0 && !res_getOperatorPrevConsKeyForChainID_0 && !genesis
@@ -246,3 +246,16 @@ package keeper
 //@        arg_prefix == cat(bytelit(g("x/operator/types.BytePrefixForOperatorAndChainIDToPrevConsKey")), res_ChainIDWithLenKey_0)
 //@ loop #1
 //@   invariant true
+
+// ---------------------------------------------------------------------------------------------
+// C06 (power = whole-number part of the ACTIVE USD value): the vote power reported for each operator, in the order
+// given, is the truncated active value (the value that is zero while the self delegation is below the AVS minimum).
+//@ func (Keeper).GetVotePowerForChainID
+//@   flag pure=IsAVSByChainID,GetOperatorOptedUSDValue
+//@   flag noframe
+//@   ensures[C06.gvp.len] err == nil ==> len(r0) == len(operators)
+//@ loop #1
+//@   invariant -1 <= rangeindex && rangeindex < len(operators) && len(ret) == rangeindex + 1
+//@   step[C06.gvp.active] len(ret) == len(prev_ret) + 1 && !isnil(res_GetOperatorOptedUSDValue_0.ActiveUSDValue) &&
+//@        ret[len(prev_ret)] == wraps(chop_trunc(val(res_GetOperatorOptedUSDValue_0.ActiveUSDValue)), 18446744073709551616) &&
+//@        forall(i, 0, len(prev_ret), ret[i] == prev_ret[i])
